@@ -41,10 +41,12 @@ RULE += ' Bookkeeping calls between operations (get_statistics, clear_recycling_
 RULE += ' Equal-valued items: an ingest variant adds an item equal in every field to earlier ones (Waste compares by value); the accounting attributes a processed copy to the oldest copy still unaccounted for.'
 RULE += " `builtin` cases (1/10 generated + a table of 4 configurations x 4 types x 14 content shapes x 3 continuations) use the lysosome's own per-type digesters on arbitrary content: mis-typed fields, cyclic dicts and lists, objects with cleanup() (also raising, nested, self-referential), deep and big values; accounting by counts (ingested = queued + digested + errors + expired + emergency-dropped, the last only growing in an ingest at capacity), cleanup() at most once per resource. A call that burns 60 s of CPU is a finding (per-case CPU guard)."
 RULE += ' Round 7: a `decoy` (pbt/props/_decoys.py): a second object of the class, differently configured and put through a misleading script (same prompts / names / ids, opposite verdicts and limits), is built in the same process after the object under test.'
+RULE += " Round 8: `late` configurations assign the toxic-waste callback to the public `on_toxic` attribute after construction."
 EXHAUSTIVE_NOTE = {"quick": "all op sequences of length 1..3 over 13 ops x 4 configurations (4*(13+169+2197) = 9516), complete",
                    "thorough": "all op sequences of length 1..4 over 13 ops x 4 configurations (4*(13+169+2197+28561) = 123760), complete"}
 
-_cfg = st.fixed_dictionaries({"max_q": st.integers(2, 8), "auto": st.integers(1, 8)})
+# `late`: the toxic-waste callback is assigned to the public `on_toxic` attribute after construction instead of being passed to the constructor
+_cfg = st.fixed_dictionaries({"max_q": st.integers(2, 8), "auto": st.integers(1, 8), "late": st.sampled_from([False, False, False, True])})
 _op = st.one_of(
     st.tuples(st.just("ingest"), st.integers(0, 3), st.sampled_from([False, False, True])),
     st.tuples(st.just("ingest"), st.integers(0, 3), st.just(False)),
@@ -103,6 +105,11 @@ def enumerate_cases(tier):
             for shape in SHAPES:
                 for tail in ([["digest", None]], [["ingest", 1, "id"], ["ingest", 2, "id"], ["ingest", 0, "id"]], [["adv", 61], ["autophagy"], ["digest", None]]):
                     yield {"builtin": True, "cfg": cfg, "ops": [["ingest", t, shape]] + tail}
+    for cfg in _ENUM_CFG:
+        for d in (1, 2):
+            for seq in itertools.product(_ENUM_OPS, repeat=d):
+                if any(o[0] == "sens" for o in seq):
+                    yield {"cfg": dict(cfg, late=True), "ops": [list(o) for o in seq]}
     depth = 4 if tier == "thorough" else 3
     for cfg in _ENUM_CFG:
         for d in range(1, depth + 1):
@@ -172,7 +179,9 @@ class _World:
             self.normal += 1
 
         self.lys = lys_mod.Lysosome(max_queue_size=cfg["max_q"], auto_digest_threshold=cfg["auto"], retention_hours=1.0,
-                                    digesters={t: digester for t in self.types}, on_toxic=on_toxic, silent=True)
+                                    digesters={t: digester for t in self.types}, on_toxic=None if cfg.get("late") else on_toxic, silent=True)
+        if cfg.get("late"):
+            self.lys.on_toxic = on_toxic
 
     def _id_of(self, waste):
         c = waste.content
